@@ -5,6 +5,7 @@ import (
 	"io"
 
 	jschema "github.com/jsightapi/jsight-schema-go-library"
+	"github.com/jsightapi/jsight-schema-go-library/bytes"
 	"github.com/jsightapi/jsight-schema-go-library/errors"
 	"github.com/jsightapi/jsight-schema-go-library/fs"
 	"github.com/jsightapi/jsight-schema-go-library/internal/lexeme"
@@ -106,7 +107,12 @@ func (d *Document) check() error {
 			err = nil
 
 			if jsonLexCounter == 0 {
-				err = errors.NewDocumentError(d.file, errors.ErrEmptyJson)
+				e := errors.NewDocumentError(d.file, errors.ErrEmptyJson)
+				if n := len(d.file.Content()); n > 0 {
+					// Only blanks: the input ends early, at its last byte.
+					e.SetIndex(bytes.Index(n - 1))
+				}
+				err = e
 			}
 		}
 		return err
